@@ -18,10 +18,17 @@ import (
 
 // C19 — a round never spans a full round gap and holds no duplicates.
 // Explicit-state BFS (E2) over ALL sequences of candidate snapshots offered to
-// the real (*CacheRound).validateSnapshot(s, true), until no candidate is
-// acceptable any more (frontier exhausted, no depth cut). The invariant of
-// the statement is evaluated in every reached state on the real
-// CacheRound.Snapshots, and Gap()/asFinal() are run in every state.
+// the real cache round, until no candidate is acceptable any more (frontier
+// exhausted, no depth cut). Every candidate can be offered in two ways:
+//   add           (*CacheRound).validateSnapshot(s, true) on the live round
+//                 (finalizeNodeAcceptSnapshot path)
+//   validate+add  the cosiHandleFinalization path: Copy(), ValidateSnapshot(s)
+//                 on the copy, then AddSnapshot's validateSnapshot(s, true) on
+//                 the same copy, which becomes the live round
+// The state is the REAL content of CacheRound.Snapshots in slice order (the
+// slice is sorted by Gap() only up to its tail, so the order of acceptance is
+// part of the state: out-of-order accepts are distinct states). The oracle
+// never touches the live slice: Gap()/asFinal() are run on clones.
 
 type c19Cand struct {
 	name string
@@ -50,11 +57,11 @@ func c19Build(thorough bool) {
 	g := int64(gap)
 	offs := []off{{"-gap", -g}, {"-1", -1}, {"", 0}, {"+1", 1}, {"+gap/2", g / 2}, {"+gap-1", g - 1}, {"+gap", g}, {"+gap+1", g + 1}, {"+2gap-1", 2*g - 1}}
 	txNames := []string{"a", "b", "c", "d"}
-	sets := [][]int{{0}, {1}, {2}, {0, 1}, {2, 3}}
+	sets := [][]int{{0}, {1}, {2}, {3}, {0, 1}, {2, 3}}
 	if thorough {
 		offs = append(offs, off{"+2gap", 2 * g})
 		txNames = append(txNames, "e")
-		sets = append(sets, []int{3}, []int{4}, []int{0, 4}, []int{0, 1, 2})
+		sets = append(sets, []int{4}, []int{0, 4}, []int{0, 1, 2})
 	}
 	tx := make([]crypto.Hash, len(txNames))
 	for i, n := range txNames {
@@ -90,9 +97,11 @@ func c19Build(thorough bool) {
 
 type c19State struct {
 	round *CacheRound
+	w     int // BFS worker index: selects the lock-free counter map
 }
 
-func c19Names(snaps []*common.Snapshot) []string {
+// c19Seq: the snapshots in SLICE order (the real state of the live round).
+func c19Seq(snaps []*common.Snapshot) []string {
 	out := make([]string, len(snaps))
 	for i, s := range snaps {
 		if k, ok := c19ByHash[s.Hash]; ok && c19Cands[k].ts == s.Timestamp {
@@ -101,6 +110,12 @@ func c19Names(snaps []*common.Snapshot) []string {
 			out[i] = fmt.Sprintf("?%s@%d", s.Hash.String()[:8], s.Timestamp)
 		}
 	}
+	return out
+}
+
+// c19Names: the snapshots as a (sorted) multiset.
+func c19Names(snaps []*common.Snapshot) []string {
+	out := c19Seq(snaps)
 	sort.Strings(out)
 	return out
 }
@@ -109,80 +124,88 @@ func c19Names(snaps []*common.Snapshot) []string {
 func c19Reasons(members []*common.Snapshot, cand *common.Snapshot) []string {
 	gap := config.SnapshotRoundGap
 	day := 24 * uint64(time.Hour)
-	r := map[string]bool{}
+	var r [5]bool
 	lo, hi := cand.Timestamp, cand.Timestamp
 	for _, m := range members {
 		if m.Hash == cand.Hash {
-			r["dup-hash"] = true
+			r[0] = true
 		}
 		if m.Timestamp == cand.Timestamp {
-			r["dup-timestamp"] = true
-		}
-		if m.Timestamp/day != cand.Timestamp/day {
-			r["other-day"] = true
+			r[1] = true
 		}
 		for _, h := range cand.Transactions {
 			if slices.Contains(m.Transactions, h) {
-				r["dup-transaction"] = true
+				r[2] = true
 			}
+		}
+		if m.Timestamp/day != cand.Timestamp/day {
+			r[3] = true
 		}
 		lo, hi = min(lo, m.Timestamp), max(hi, m.Timestamp)
 	}
-	if hi-lo >= gap {
-		r["span>=gap"] = true
-	}
+	r[4] = hi-lo >= gap
 	var out []string
-	for _, k := range []string{"dup-hash", "dup-timestamp", "dup-transaction", "other-day", "span>=gap"} {
-		if r[k] {
+	for i, k := range []string{"dup-hash", "dup-timestamp", "dup-transaction", "other-day", "span>=gap"} {
+		if r[i] {
 			out = append(out, k)
 		}
 	}
 	return out
 }
 
-// c19Invariant evaluates the statement on the real round content.
+func c19Clone(round *CacheRound) *CacheRound {
+	return &CacheRound{NodeId: round.NodeId, Number: round.Number, Timestamp: round.Timestamp, References: round.References,
+		Snapshots: append([]*common.Snapshot{}, round.Snapshots...), index: round.index}
+}
+
+// c19Invariant evaluates the statement on the real round content. The live
+// slice is only read; Gap() and asFinal() (which sort in place) get clones.
 func c19Invariant(round *CacheRound, report func(key, desc string)) {
 	gap := config.SnapshotRoundGap
 	day := 24 * uint64(time.Hour)
-	names := c19Names(round.Snapshots)
-	snaps := append([]*common.Snapshot{}, round.Snapshots...)
+	snaps := round.Snapshots
 	lo, hi := ^uint64(0), uint64(0)
+	bad := func(key, format string, args ...any) {
+		report(key, fmt.Sprintf("round %v (slice order): ", c19Seq(round.Snapshots))+fmt.Sprintf(format, args...))
+	}
 	for i, a := range snaps {
 		lo, hi = min(lo, a.Timestamp), max(hi, a.Timestamp)
 		for _, b := range snaps[i+1:] {
 			if a.Hash == b.Hash {
-				report("accepted:dup-hash", fmt.Sprintf("round %v holds hash %s twice", names, a.Hash))
+				bad("accepted:dup-hash", "holds hash %s twice", a.Hash)
 			}
 			if a.Timestamp == b.Timestamp {
-				report("accepted:dup-timestamp", fmt.Sprintf("round %v holds two snapshots with timestamp %d", names, a.Timestamp))
+				bad("accepted:dup-timestamp", "holds two snapshots with timestamp %d", a.Timestamp)
 			}
 			if a.Timestamp/day != b.Timestamp/day {
-				report("accepted:two-days", fmt.Sprintf("round %v holds snapshots of day %d and day %d", names, a.Timestamp/day, b.Timestamp/day))
+				bad("accepted:two-days", "holds snapshots of day %d and day %d", a.Timestamp/day, b.Timestamp/day)
 			}
 			for _, h := range a.Transactions {
 				if slices.Contains(b.Transactions, h) {
-					report("accepted:dup-transaction", fmt.Sprintf("round %v holds transaction %s in two snapshots", names, h))
+					bad("accepted:dup-transaction", "holds transaction %s in two snapshots", h)
 				}
 			}
 		}
 	}
 	if hi-lo >= gap {
-		report("accepted:span>=gap", fmt.Sprintf("round %v spans %d >= gap %d", names, hi-lo, gap))
+		bad("accepted:span>=gap", "spans %d >= gap %d", hi-lo, gap)
 	}
 	var gs, ge uint64
-	if p := verifmc.Catch(func() { gs, ge = round.Gap() }); p != nil {
-		report("closing:Gap-panics", fmt.Sprintf("Gap() panics on accepted round %v: %v", names, p))
+	gc := c19Clone(round)
+	if p := verifmc.Catch(func() { gs, ge = gc.Gap() }); p != nil {
+		bad("closing:Gap-panics", "Gap() panics: %v", p)
 	} else if gs != lo || ge != hi {
-		report("closing:Gap-bounds", fmt.Sprintf("Gap() of round %v = (%d,%d), member timestamps range %d..%d", names, gs, ge, lo, hi))
+		bad("closing:Gap-bounds", "Gap() = (%d,%d), member timestamps range %d..%d", gs, ge, lo, hi)
 	}
 	var f *FinalRound
-	if p := verifmc.Catch(func() { f = round.asFinal() }); p != nil {
-		report("closing:asFinal-panics", fmt.Sprintf("asFinal() panics on accepted round %v: %v", names, p))
+	fc := c19Clone(round)
+	if p := verifmc.Catch(func() { f = fc.asFinal() }); p != nil {
+		bad("closing:asFinal-panics", "asFinal() panics: %v", p)
 	} else if f == nil || f.Start != lo || f.End != hi || !f.Hash.HasValue() || f.NodeId != round.NodeId || f.Number != round.Number {
-		report("closing:asFinal-bounds", fmt.Sprintf("asFinal() of round %v = %+v, member timestamps range %d..%d", names, f, lo, hi))
+		bad("closing:asFinal-bounds", "asFinal() = %+v, member timestamps range %d..%d", f, lo, hi)
 	}
-	if after := c19Names(round.Snapshots); !slices.Equal(after, names) {
-		report("closing:changes-round", fmt.Sprintf("Gap()/asFinal() changed the round content from %v to %v", names, after))
+	if len(gc.Snapshots) != len(snaps) || len(fc.Snapshots) != len(snaps) {
+		bad("closing:changes-round", "Gap()/asFinal() changed the number of snapshots to %d/%d", len(gc.Snapshots), len(fc.Snapshots))
 	}
 }
 
@@ -196,69 +219,139 @@ func c19ErrClass(err error) string {
 	return "other"
 }
 
+var c19Modes = []string{"add", "validate+add"}
+
 func TestMC_C19(t *testing.T) {
 	c := verifmc.Start(t, "C19", "model_checking")
 	defer c.Finish()
 	c19Build(c.Thorough())
 	gap := config.SnapshotRoundGap
-	c.SetRule(fmt.Sprintf("BFS over ALL sequences of %d candidate snapshots offered to the real (*CacheRound).validateSnapshot(s, true) on an initially empty cache round, until no candidate is acceptable (frontier exhausted); candidates = timestamps {X-gap, X-1, X, X+1, X+gap/2, X+gap-1, X+gap, X+gap+1, X+2gap-1} for X = a day boundary D and a mid-day instant M of the same day (thorough: + X+2gap, and X = the next day boundary E too) x transaction sets {a},{b},{c},{a,b},{c,d} (thorough: +{d},{e},{a,e},{a,b,c}), snapshot hash = real PayloadHash; canonical state = set of snapshots held by CacheRound.Snapshots; every offer is a transition (a refusal is a self-loop); invariant, Gap() and asFinal() evaluated after every acceptance", len(c19Cands)))
-	c.Assume("a plain CacheRound value is enough: validateSnapshot reads only Number and Snapshots (no node, store or index)",
+	c.SetRule(fmt.Sprintf("BFS over ALL sequences of offers of %d candidate snapshots x 2 offer paths {add = validateSnapshot(s,true) on the live round; validate+add = Copy(), ValidateSnapshot(s) on the copy, then validateSnapshot(s,true) on the same copy which becomes the live round (cosiHandleFinalization/AddSnapshot)} to an initially empty cache round, until no candidate is acceptable (frontier exhausted, depth 5 = up to 4 accepted members + a closing pass); candidates = timestamps {X-gap, X-1, X, X+1, X+gap/2, X+gap-1, X+gap, X+gap+1, X+2gap-1} for X = a day boundary D and a mid-day instant M of the same day (thorough: + X+2gap, and X = the next day boundary E too) x transaction sets {a},{b},{c},{d},{a,b},{c,d} (thorough: +{e},{a,e},{a,b,c}), snapshot hash = real PayloadHash, so every accepted timestamp (also the last accepted one) is offered again with other transactions, above and below every accepted timestamp; canonical state = content of CacheRound.Snapshots IN SLICE ORDER (out-of-order acceptance leaves an unsorted tail and is a distinct state); every offer is a transition; invariant, Gap() and asFinal() (on clones) evaluated after every acceptance", len(c19Cands)))
+	c.Assume("a plain CacheRound value is enough: validateSnapshot reads only Number and Snapshots (Copy additionally References and index; no node or store)",
 		"all candidates carry the round's number and a non-zero hash (the two panics guarding that are a caller contract, not part of the statement)",
 		"the converse direction (a candidate the statement allows is refused) is informational: stricter_than_statement")
 
+	local := make([]map[string]int64, c.Workers()+1)
+	for i := range local {
+		local[i] = map[string]int64{}
+	}
+	refs := &common.RoundLink{Self: crypto.Blake3Hash([]byte("c19-self")), External: crypto.Blake3Hash([]byte("c19-external"))}
+
 	b := &verifmc.BFS[*c19State]{
-		C: c, NumEvents: len(c19Cands), MaxDepth: 8, MaxStates: 400000,
-		EventName: func(e int) string { return c19Cands[e].name },
-		New: func(int) *c19State {
-			return &c19State{round: &CacheRound{NodeId: c19Cands[0].snap.NodeId, Number: c19Round}}
+		C: c, NumEvents: 2 * len(c19Cands), MaxDepth: 10, MaxStates: 600000,
+		EventName: func(e int) string { return c19Cands[e/2].name + ":" + c19Modes[e%2] },
+		New: func(w int) *c19State {
+			return &c19State{w: w, round: &CacheRound{NodeId: c19Cands[0].snap.NodeId, Number: c19Round, References: refs, index: newRoundIndexCache()}}
 		},
 		Close: func(*c19State) {},
-		Key:   func(s *c19State) string { return strings.Join(c19Names(s.round.Snapshots), " ") },
+		Key:   func(s *c19State) string { return strings.Join(c19Seq(s.round.Snapshots), " ") },
 		Apply: func(s *c19State, e int, replaying bool, report func(key, desc string)) bool {
-			snap := c19Cands[e].snap
+			ci, mode := e/2, e%2
+			snap := c19Cands[ci].snap
 			cand := &snap
+			name := c19Cands[ci].name
 			prev := append([]*common.Snapshot{}, s.round.Snapshots...)
-			before := c19Names(prev)
-			var err error
-			if p := verifmc.Catch(func() { err = s.round.validateSnapshot(cand, true) }); p != nil {
-				report("validate-panics", fmt.Sprintf("validateSnapshot(%s) panics on round %v: %v", c19Cands[e].name, before, p))
-				return true
+			count := func(k string) {
+				if !replaying {
+					local[s.w][k]++
+				}
 			}
-			after := c19Names(s.round.Snapshots)
+			var err error
+			switch mode {
+			case 0:
+				if p := verifmc.Catch(func() { err = s.round.validateSnapshot(cand, true) }); p != nil {
+					report("validate-panics", fmt.Sprintf("validateSnapshot(%s, true) panics on round %v: %v", name, c19Seq(prev), p))
+					return true
+				}
+			case 1:
+				cp := s.round.Copy()
+				var v error
+				if p := verifmc.Catch(func() { v = cp.ValidateSnapshot(cand) }); p != nil {
+					report("validate-panics", fmt.Sprintf("ValidateSnapshot(%s) panics on round %v: %v", name, c19Seq(prev), p))
+					return true
+				}
+				if !slices.Equal(c19Names(cp.Snapshots), c19Names(prev)) {
+					report("validate-only-changes-round", fmt.Sprintf("ValidateSnapshot(%s) (add=false) changed the round from %v to %v", name, c19Seq(prev), c19Seq(cp.Snapshots)))
+				}
+				if !replaying {
+					// the verdict of the validation and of the adding validation on an identical copy
+					probe := s.round.Copy()
+					var pe error
+					pp := verifmc.Catch(func() { pe = probe.validateSnapshot(cand, true) })
+					switch {
+					case pp != nil:
+					case v == nil && pe != nil:
+						report("verdicts-differ:validate-ok-add-refuses", fmt.Sprintf("on round %v (slice order) ValidateSnapshot(%s) passes but validateSnapshot(%s, true) on an identical copy returns %q", c19Seq(prev), name, name, pe))
+					case v != nil && pe == nil:
+						c.Stricter("ValidateSnapshot refuses what validateSnapshot(add=true) accepts on an identical copy")
+					}
+				}
+				if v != nil {
+					err = v
+					break
+				}
+				var ae error
+				if p := verifmc.Catch(func() { ae = cp.validateSnapshot(cand, true) }); p != nil {
+					report("validate-panics", fmt.Sprintf("validateSnapshot(%s, true) panics after ValidateSnapshot passed on round %v: %v", name, c19Seq(prev), p))
+					return true
+				}
+				if ae != nil {
+					report("validated-but-AddSnapshot-panics", fmt.Sprintf("on round %v (slice order) ValidateSnapshot(%s) passes, then AddSnapshot's validateSnapshot(%s, true) on the same copy returns %q: AddSnapshot panics after TopoWrite", c19Seq(prev), name, name, ae))
+					count("validated-but-add-refused")
+					return true
+				}
+				s.round = cp
+			}
 			if err != nil {
-				if !slices.Equal(before, after) {
-					report("refused-but-changed", fmt.Sprintf("validateSnapshot(%s) returned %q but the round changed from %v to %v", c19Cands[e].name, err, before, after))
+				if !slices.Equal(c19Names(prev), c19Names(s.round.Snapshots)) {
+					report("refused-but-changed", fmt.Sprintf("offer %s:%s returned %q but the round changed from %v to %v", name, c19Modes[mode], err, c19Seq(prev), c19Seq(s.round.Snapshots)))
 				}
 				if replaying {
 					return true
 				}
 				reasons := c19Reasons(prev, cand)
-				c.Outcome("reject:" + c19ErrClass(err))
+				count("reject:" + c19ErrClass(err))
 				if len(reasons) == 0 {
 					c.Stricter("refused (" + c19ErrClass(err) + ") although distinct, same day and within the gap")
-					c.Outcome("refused-although-allowed")
+					count("refused-although-allowed")
 				} else {
-					c.Outcome("refused-for:" + strings.Join(reasons, "+"))
+					count("refused-for:" + strings.Join(reasons, "+"))
+				}
+				if n := len(prev); n >= 2 && len(reasons) == 1 && reasons[0] == "dup-timestamp" && prev[n-1].Timestamp == cand.Timestamp {
+					ooo := false
+					for _, m := range prev[:n-1] {
+						ooo = ooo || m.Timestamp > prev[n-1].Timestamp
+					}
+					if ooo {
+						count(fmt.Sprintf("refused:%s:dup-of-out-of-order-tail-timestamp:members=%d", c19Modes[mode], n))
+					}
 				}
 				return true
 			}
-			want := append(append([]string{}, before...), c19Cands[e].name)
+			want := append(c19Seq(prev), name)
 			sort.Strings(want)
-			if !slices.Equal(after, want) {
-				report("accepted-but-not-appended", fmt.Sprintf("validateSnapshot(%s, add=true) returned nil on %v but the round is now %v", c19Cands[e].name, before, after))
+			if !slices.Equal(c19Names(s.round.Snapshots), want) {
+				report("accepted-but-not-appended", fmt.Sprintf("offer %s:%s succeeded on %v but the round is now %v", name, c19Modes[mode], c19Seq(prev), c19Seq(s.round.Snapshots)))
 			}
 			if replaying {
 				return true
 			}
-			c.Outcome("accept")
-			c.Outcome(fmt.Sprintf("accept:members=%d", len(s.round.Snapshots)))
+			count("accept")
+			count("accept:" + c19Modes[mode])
+			count(fmt.Sprintf("accept:members=%d", len(s.round.Snapshots)))
 			if len(prev) > 0 {
 				lo, hi := cand.Timestamp, cand.Timestamp
 				for _, m := range prev {
 					lo, hi = min(lo, m.Timestamp), max(hi, m.Timestamp)
 				}
 				if hi-lo == gap-1 {
-					c.Outcome("accept:span=gap-1")
+					count("accept:span=gap-1")
+				}
+				if cand.Timestamp < hi {
+					count("accept:out-of-order(below-an-accepted-timestamp)")
+				}
+				if cand.Timestamp == hi {
+					count("accept:in-order(above-all-accepted)")
 				}
 			}
 			c19Invariant(s.round, report)
@@ -266,16 +359,32 @@ func TestMC_C19(t *testing.T) {
 		},
 	}
 	states, trans, depth, exhausted := b.Run()
+	out := map[string]int64{}
+	for _, m := range local {
+		for k, v := range m {
+			out[k] += v
+		}
+	}
+	for k, v := range out {
+		c.Outcome(k) // class; the number of transitions per class is under count:<class>
+		c.Set("count:"+k, v)
+	}
 	c.Set("candidates", int64(len(c19Cands)))
 	c.Set("max_depth", depth)
-	c.Sample(map[string]any{"history": []string{"D+1/{a}", "D+gap/{b}", "D/{c}"}, "expect": "third offer refused (gap start): span would be exactly the gap, measured against the end moved by the second"})
-	c.Sample(map[string]any{"history": []string{"D-1/{a}", "D/{b}"}, "expect": "second offer refused (day leap) although 1 ns apart"})
+	c.Sample(map[string]any{"history": []string{"D+1/{a}:add", "D+gap/{b}:add", "D/{c}:validate+add"}, "expect": "third offer refused (gap start): span would be exactly the gap, measured against the end moved by the second"})
+	c.Sample(map[string]any{"history": []string{"D-1/{a}:add", "D/{b}:add"}, "expect": "second offer refused (day leap) although 1 ns apart"})
+	c.Sample(map[string]any{"history": []string{"D+1/{a}:add", "D+gap/2/{b}:add", "D/{c}:add", "D/{d}:validate+add"}, "expect": "D/{c} is accepted out of order and sits at the unsorted tail of the slice; D/{d} repeats the tail timestamp and must be refused (duplication)"})
 	if c.Violations() == 0 {
 		c.Require(exhausted, "frontier not exhausted at depth %d (%d states)", depth, states)
+		c.Require(depth >= 5, "BFS ended at depth %d: 4-member rounds not reached", depth)
 	}
-	c.Require(states > 300 && trans > 20000, "vacuous C19 exploration: %d states %d transitions", states, trans)
-	for _, o := range []string{"accept", "accept:members=3", "accept:span=gap-1", "reject:duplication", "reject:day-leap", "reject:gap-start", "reject:gap-end",
-		"refused-for:other-day", "refused-for:span>=gap", "refused-for:dup-transaction", "refused-for:dup-timestamp", "refused-for:dup-hash+dup-timestamp+dup-transaction"} {
-		c.Require(c.OutcomeCount(o) > 0, "outcome class %q never reached", o)
+	c.Require(states > 1000 && trans > 100000, "vacuous C19 exploration: %d states %d transitions", states, trans)
+	for _, o := range []string{"accept", "accept:add", "accept:validate+add", "accept:members=3", "accept:members=4", "accept:span=gap-1",
+		"accept:out-of-order(below-an-accepted-timestamp)", "accept:in-order(above-all-accepted)",
+		"reject:duplication", "reject:day-leap", "reject:gap-start", "reject:gap-end",
+		"refused-for:other-day", "refused-for:span>=gap", "refused-for:dup-transaction", "refused-for:dup-timestamp", "refused-for:dup-hash+dup-timestamp+dup-transaction",
+		"refused:add:dup-of-out-of-order-tail-timestamp:members=2", "refused:add:dup-of-out-of-order-tail-timestamp:members=3",
+		"refused:validate+add:dup-of-out-of-order-tail-timestamp:members=2", "refused:validate+add:dup-of-out-of-order-tail-timestamp:members=3"} {
+		c.Require(out[o] > 0, "outcome class %q never reached", o)
 	}
 }
